@@ -118,3 +118,22 @@ package masswallet
 //@   requires wmWF(w) && config.ChainParams != nil
 //@   requires forall qi_ int :: 0 <= qi_ && qi_ < len(utxos) ==> utxos[qi_] != nil
 //@   modifies rollbacks()
+
+// ---- C02: automatic construction.  Conservation lemma at the point where one selection pass is settled:
+// what the selected coins hold = requested outputs + the fee the function will report + the change output
+// (sumCredits = ghost sum of the amounts of a list of credits, defined by findEligibleUtxos' contract).
+//@ func (*WalletManager).findEligibleUtxos
+//@   trusted
+//@   requires w != nil && validAmt(amount)
+//@   ensures result4 == nil ==> validAmt(result2) && (forall qi_ int :: 0 <= qi_ && qi_ < len(result0) ==> result0[qi_] != nil)
+//@   ensures result4 == nil ==> amt(result2) == ghost("sumCredits", result0)
+
+//@ define changeVal(o) = (b2i(o != nil) * mathint(cur(o.Value)))
+//@ func (*WalletManager).autoConstructTxInAndChangeTxOut
+//@   props C02 C19
+//@   requires wmWF(w) && config.ChainParams != nil && txWF(msgTx) && validAmt(userTxFee)
+//@   modifies &msgTx.TxIn, msgTx.TxIn, &msgTx.TxOut, msgTx.TxOut, rollbacks()
+//@   loop#1 invariant validAmt(outAmounts)
+//@   loop#2 invariant validAmt(outAmounts) && validAmt(targetTxFee) && txWF(msgTx) && (sameBlock(msgTx.TxIn, old(msgTx.TxIn)) || fresh(msgTx.TxIn)) && sameSlice(msgTx.TxOut, old(msgTx.TxOut))
+//@   loop#3 invariant validAmt(outAmounts) && validAmt(targetTxFee) && validAmt(adj) && changeOut == nil
+//@   at "break" assert[C02] amt(found) == amt(targetTxFee) + amt(outAmounts) + (b2i(changeOut != nil) * mathint(changeOut.Value)) && amt(found) == ghost("sumCredits", utxos)
